@@ -1247,9 +1247,11 @@ void gen_config(Choices& c, Cfg& cfg, Report& r)
   case 1: cfg.wbuf = 0; break;
   default: cfg.wbuf = 4096; break;
   }
-  // --- time rotation (C15) ---
-  if (g_prop == 15)
+  // --- time rotation (C15; a quarter of the C14 cases combine it with the size limit: the size bound must hold for files
+  // opened by a time rotation as well) ---
+  if (g_prop == 15 || c.flip(1, 4))
   {
+    if (g_prop == 14) r.label("size_rotation_combined_with_time_rotation");
     switch (c.weighted({3, 2, 2}))
     {
     case 0:
@@ -1396,7 +1398,9 @@ static void run_case_impl(Choices& c, Report& r)
   set_tz(cfg.zone);
 
   Run run(cfg, r);
-  run.assert_tier_a = (cfg.freq != kNone) && !g_excl_f8;
+  // C14 jobs that combine the size limit with a time rotation judge the time side with the drift-tolerant tier only: the
+  // configured-schedule tier is C15's business (and has a known finding there)
+  run.assert_tier_a = (cfg.freq != kNone) && !g_excl_f8 && g_prop == 15;
   Clock clk;
   clk.keep_local_monotone = !cfg.gmt && cfg.scheme != kIndex;
 
